@@ -268,6 +268,16 @@ def run_checks(a):
             continue
         with open(cand['raw']) as f:
             hs = json.load(f)['pythonhashseed']
+        kf0 = next((k for k in known if k['property'] == a.prop and k['sig'] == sig), None)
+        if kf0 is not None:
+            # a listed finding: no need to minimise it again on every run; keep the raw trace as replay
+            keep = VERIF / 'replays' / f'{a.prop}-known-{cand["run_seed"]:016x}.json'
+            os.replace(cand['raw'], keep)
+            confirmed.append({'sig': sig, 'replay': str(keep), 'count': len(vs), 'known': True,
+                              'detail': cand['violation']['detail'][:500]})
+            verdict_lines.append(f'KNOWN-FINDING: property={a.prop} {kf0["what"]} [sig={sig}; {len(vs)} runs; '
+                                 f'replay={keep}]')
+            continue
         minp = VERIF / 'replays' / f'{a.prop}-{cand["run_seed"]:016x}.json'
         lf = open(tmp / 'minimise.log', 'a')  # pylint: disable=consider-using-with
         p = _spawn([a.prop, '--minimise', cand['raw'], '--out', str(minp), '--budget',
